@@ -99,7 +99,7 @@ def _is_null(instance, name):
     if name in instance.__dict__:
         value = instance.__dict__[name]
     else:
-        value = getattr(instance, name)
+        value = getattr(instance, name, None)
 
     if value:
         return False
